@@ -23,12 +23,22 @@ def dec_label(x):
         if 'ts' in x:
             import pandas as pd
             return pd.Timestamp(x['ts'])
+        if 'td' in x:
+            import datetime
+            return datetime.timedelta(days=x['td'])
+        if 'fs' in x:
+            return frozenset(dec_label(v) for v in x['fs'])
         raise ValueError(x)
     return x
 
 
 def enc_label(x):
+    import datetime
     import pandas as pd
+    if isinstance(x, datetime.timedelta) and not isinstance(x, pd.Timedelta):
+        return {'td': x.days}
+    if isinstance(x, frozenset):
+        return {'fs': sorted(enc_label(v) for v in x)}
     if isinstance(x, tuple):
         return {'t': [enc_label(v) for v in x]}
     if isinstance(x, pd.Period):
@@ -91,6 +101,15 @@ def spellings(desc, label):
         if desc['freq'] == 'D':
             out.append(label.isoformat())
     return out
+
+
+def odd_absent_labels(desc):
+    """Hashable values of a type no label of the span has (so they are certainly unknown labels): a (year, quarter)
+    tuple, a one-element tuple, a timedelta, a frozenset, a float between two integers."""
+    import datetime
+    labs = labels(desc)
+    cands = [(2000, 1), ('zz',), datetime.timedelta(days=1), frozenset([1]), 3.25]
+    return [c for c in cands if pos(labs, c) is None]
 
 
 def absent_labels(desc):
